@@ -45,6 +45,14 @@ HEADER = ("From Coq Require Import String List Bool Arith.\nFrom PM Require Impo
 
 NAMES = ["a", "b", "c", "d", "e"]
 
+# the refutation witness of coq/theories/Rel_persist.v, as a relation expression (state of the analysis of
+# x=5;y=5;while(z>0){x=y+y;} composed with the relation of while(z>0){z=x+x;}); evaluated first
+_I0 = [("i", [(0, 0)]), ("i", [(1, 0)])]
+_WA = ("comp", ("comp", ("leaf", ["x", "y", "z"], "x", [_I0, _I0, _I0]), ("leaf", ["x", "y", "z"], "y", [[("o", [])], [("o", [])], [("o", [])]])),
+       ("leaf", ["x", "y", "z"], "y", [[("o", [])], [("o", [])], [("o", [])]]))
+WITNESSES = [("comp", ("leaf", ["x", "y", "z"], "x", [_I0, _I0, _I0]),
+              ("leaf", ["z", "x"], "z", [[("m", [])], [("i", [(0, 1)]), ("i", [(1, 1)]), ("w", [(2, 1)])]]))]
+
 
 class DG:   # minimal stand-in for the delta graph argument of the corrections
     def from_monomial(self, m):
@@ -193,9 +201,24 @@ def semantic_check(e, failing, memo):
         infA = any(v == "i" for v in A.values())
         infB = B is not None and any(v == "i" for v in B.values())
         infR = any(v == "i" for v in R.values())
+        if k == "comp":
+            # an infinity facing an operand entry that HAS a term at c (or is the zero polynomial) must survive
+            def has_term(r, x, y):
+                vs = r["vars"]
+                if x in vs and y in vs:
+                    return bool(PL.poly_terms(r["matrix"][vs.index(x)][vs.index(y)], c))
+                return True
+            for x in V:
+                for y in V:
+                    live = any((A[(x, z)] == "i" and has_term(ops[1], z, y)) or (B[(z, y)] == "i" and has_term(ops[0], x, z)) for z in V)
+                    if live and R[(x, y)] != "i":
+                        failing.append({"what": f"infinity-dropped: composition drops an infinity at choice {list(c)}, entry ({x},{y}), although the facing operand entry has a term there",
+                                        "sig": ["C10", "infinity-dropped-live", k], "input": dict(inp, choice=list(c)), "expected": "i", "observed": R[(x, y)]})
+                        return
         if k in ("comp", "sum", "fix") and (infA or infB) and not infR:
             sig = ["C10", "infinity-lost", k]
-            failing.append({"what": f"infinity-lost: an operand of {k} has an infinity at choice {list(c)} but the result has none",
+            failing.append({"what": f"infinity-lost: an operand of {k} has an infinity at choice {list(c)} but the result has none"
+                            + (" (every infinity faces an entry with no term at this choice: zero polynomial x partially failing entry)" if k == "comp" else ""),
                             "sig": sig, "input": dict(inp, choice=list(c)), "expected": "an infinity", "observed": "none"})
             return
         if infA or infB:
@@ -276,9 +299,9 @@ def run(ctx):
     failing, mism, cases = [], [], []
     ops_hist = {}
     nexc = 0
-    for i in range(n):
+    for i in range(n + len(WITNESSES)):
         site = [0]
-        e = fill_lc(gen_rex(ctx.rng, ctx.rng.choice([1, 2, 2, 3]), site))
+        e = WITNESSES[i] if i < len(WITNESSES) else fill_lc(gen_rex(ctx.rng, ctx.rng.choice([1, 2, 2, 3]), site))
         ops_hist[e[0]] = ops_hist.get(e[0], 0) + 1
         try:
             r = vlib.with_timeout(lambda: ev_real(e), 20)
